@@ -475,3 +475,5 @@ def build(chk):
     from . import C02, C12
     chk.include(C02, r"^(convection|burgers|shallowwater|euler1d)/.*/(mirror|selection)$", "uses:C02")
     chk.include(C12, r"/scalar$", "uses:C12")
+    from . import C20
+    chk.include(C20, r".", "uses:C20")          # the mesh contract
